@@ -171,6 +171,16 @@ pub fn run(ctx: &Ctx) -> (Acc, String, bool) {
     } else {
         vec![(&FULL, 1), (&FULL, 2), (&FULL, 3), (&FULL, 4), (&MID, 5), (&SMALL, 6), (&SMALL, 7)]
     };
+    // characters that are neither ASCII white space nor the start or continuation of any token (Unicode spaces,
+    // vertical tab, zero-width and control characters), each inside a small alphabet of ordinary characters
+    const ODD: [char; 10] = ['\u{a0}', '\u{b}', '\u{2003}', '\u{3000}', '\u{85}', '\u{200b}', '\u{feff}', '\u{1}', '\u{7f}', '\u{2028}'];
+    let odd_alphas: Vec<Vec<char>> = ODD.iter().map(|c| vec!['a', '1', ' ', '\n', '"', '.', *c]).collect();
+    let mut blocks = blocks;
+    for a in &odd_alphas {
+        for l in 1..=ctx.pick(4usize, 5usize) {
+            blocks.push((a.as_slice(), l));
+        }
+    }
     let mut offs = vec![0u64];
     for (a, l) in &blocks {
         offs.push(offs.last().unwrap() + (a.len() as u64).pow(*l as u32));
